@@ -49,6 +49,9 @@ structure VecOp where
   cmp : Option Comparison := none
 deriving DecidableEq, Repr
 
+/-- `planAgg`: the grouping of a vector aggregation; none written = `by ()`, the empty label set -/
+def VecOp.grouping (a : VecOp) : Grouping := (chosenGrouping a.byPrefix a.bySuffix).getD ⟨true, []⟩
+
 /-- `TopK` without its operand -/
 structure TopOp where
   isTop : Bool
@@ -152,7 +155,7 @@ def aggPhaseX (c : MCtx) (a : Option VecOp) (s : PState) : PState :=
   match a with
   | none => s
   | some a =>
-    let s' := planByWithout c.toCtx false (chosenGrouping a.byPrefix a.bySuffix) s
+    let s' := planByWithout c.toCtx false (some a.grouping) s
     { s' with sel := optCmp a.cmp (aggSel a.fn true s'.sel) }
 
 def topkPhaseX (t : Option TopOp) (s : Sel) : Sel :=
